@@ -10,7 +10,7 @@ def seeded_table():
     rows = ['| seed | change (file / mechanism) | needs, in order to manifest | reported by |', '|---|---|---|---|']
     for d in sorted(glob.glob(os.path.join(HERE, 'seeded', 'C[0-9][0-9]-[0-9]*'))):
         m = json.load(open(os.path.join(d, 'meta.json')))
-        by = ', '.join(c.replace(':', ' ') for c in m['caught_by']) or '**not caught**'
+        by = ', '.join(c.replace(':', ' ') for c in m['caught_by']) or ('**not reported, by design**: ' + m.get('not_reported_because', '?'))
         note = m.get('strengthened')
         if note:
             by += ' (after: %s)' % note
